@@ -6,6 +6,7 @@ package main
 
 import (
 	"bytes"
+	"encoding/hex"
 	"fmt"
 	"math"
 	"strconv"
@@ -620,6 +621,18 @@ func main() {
 			}
 			out.Nontrivial(op)
 		case "key":
+			// the end of the range scanned for "all entries with this value" (createRangeBoundaries: _le ascending,
+			// _ge descending, equality prefixes) must lie above the key and above every extension of it
+			if len(rf) == 2 {
+				k, e1 := hex.DecodeString(rf[0])
+				end, e2 := hex.DecodeString(rf[1])
+				if e1 == nil && e2 == nil && len(k) > 0 {
+					ext := append(append([]byte{}, k...), 0xff, 0xff)
+					if bytes.Compare(end, k) <= 0 || bytes.Compare(end, ext) <= 0 {
+						out.Oracle(line, "prefix end does not bound the entries of the value (a range filter served from the index loses them): "+op+" => "+res)
+					}
+				}
+			}
 			out.Nontrivial(op)
 		}
 	}
